@@ -371,8 +371,8 @@ def ident_fn(Q, sr, freqs, N):
                 for i in range(rd.shape[0]):
                     obls.append(E.Obl("pvelo history == w * reldisp history [%d f%d c%d]" % (i, fi, h), S.close(pv[i, h, fi], rd[i, h, fi] * Fraction(w), 1e-9 * max(1.0, w)), info=info))
                     obls.append(E.Obl("pacce history == w^2 * reldisp history [%d f%d c%d]" % (i, fi, h), S.close(pa[i, h, fi], rd[i, h, fi] * Fraction(w * w), 1e-9 * max(1.0, w * w)), info=info))
-                    obls.append(E.Obl("eqsine history == history / Q [%d f%d c%d]" % (i, fi, h), _t(esr["hist"][i, h, fi]) == _t(abh[i, h, fi]) / Q, info=info))
-                obls.append(E.Obl("eqsine == srs/Q [f%d c%d]" % (fi, h), _t(es[fi, h]) == _t(ab[fi, h]) / Q, info=info))
+                    obls.append(E.Obl("eqsine history == history / Q [%d f%d c%d]" % (i, fi, h), _t(esr["hist"][i, h, fi]) == _t(abh[i, h, fi]) / z3.RealVal(Fraction(Q)), info=info))
+                obls.append(E.Obl("eqsine == srs/Q [f%d c%d]" % (fi, h), _t(es[fi, h]) == _t(ab[fi, h]) / z3.RealVal(Fraction(Q)), info=info))
         eng.tag("identities")
         # packaging: 1-D input == the single column; swapping columns swaps the output
         one = run(np.asarray(sig)[:, 0].view(SArr), stype="absacce")
@@ -747,7 +747,7 @@ def jobs(tier, seed):
     out.append(H.Job("identities", job_ident, 10, sr, (100.0, 250.0), 3, weight=30))
     fr = [([10.0, 20.0], [12.0], 10, False), ([10.0, 20.0], [12.0], 10, True), ([5.0, 10.0, 20.0], [8.0], 25, True), ([5.0, 10.0, 20.0], [4.0, 15.0], 25, False)]
     if not q:
-        fr += [([10.0, 20.0], [15.0, 30.0], 5, True), ([5.0, 10.0, 20.0], [8.0, 12.0], 10, True), ([5.0, 10.0, 20.0, 40.0], [25.0], 25, False)]
+        fr += [([10.0, 20.0], [30.0], 5, True), ([5.0, 10.0, 20.0], [12.0], 10, True), ([5.0, 10.0, 20.0, 40.0], [25.0], 25, False)]
     for a in fr:
         out.append(H.Job("frf-%s-%s-%g-%s" % a, job_frf, *a, weight=20))
     if not q:
